@@ -214,6 +214,11 @@ def judge(chk, pid, md, findings_d11):
                 chk.known_finding("D11" if md.multi else "D16")
             else:
                 chk.violation(what, dict(replay, a={k: a[k] for k in ("result", "roots", "nw", "nwc")}, b={k: b[k] for k in ("result", "roots", "nw", "nwc")}))
+        skeys = {vkey(o) for o in obs.get("splitperm") or []}
+        if len(skeys) > 1:
+            a, b = obs["splitperm"][0], obs["splitperm"][1]
+            chk.violation("a model in which one type is defined in two parts: the order of the type definitions changes the outcome (%s vs %s)" % (a["result"], b["result"]),
+                          dict(replay, a={k: a[k] for k in ("result", "nw", "nwc")}, b={k: b[k] for k in ("result", "nw", "nwc")}))
         for op in obs.get("opperm") or []:
             if (op["result"] == "ok") != (op["base"] == "ok") or op["rel_rows"] != op["base_rows"]:
                 what = "reordering commutative operands (%s) changes relation weights/verdict: %s vs %s" % (op["desc"], op["base"], op["result"])
@@ -465,10 +470,13 @@ def run(pid, tier):
         states = trans = 0
         allmodels = []
         universes.append((0, "<<1>>", "<<1>>"))        # the public-type frame (PubInputs of WGraphMC)
+        universes.append((-1, "<<1>>", "<<1>>"))       # the operand frame (OpInputs of WGraphMC)
         for nfree, menu, menu2 in universes:
             cfg = MC_CFG % {"devs": DEVS_CURRENT, "nfree": max(nfree, 2), "menu": menu, "menu2": menu2}
             if nfree == 0:
                 cfg = cfg.replace("Inputs <- MCInputs", "Inputs <- PubInputs")
+            if nfree == -1:
+                cfg = cfg.replace("Inputs <- MCInputs", "Inputs <- OpInputs")
             res = run_tlc("WGraphMC", cfg, sc, cache=True, timeout=3000, defs="MenuSeqV == %s\nMenu2SeqV == %s" % (menu, menu2))
             if res.violated:
                 raise Infra("design-level invariant(s) %s violated on the Impl layer of spec/WGraph.tla (universe NFree=%d): the "
@@ -479,7 +487,7 @@ def run(pid, tier):
             inp = sc.path("u%d.ndjson" % nfree)
             out = sc.path("u%d.obs.ndjson" % nfree)
             write_ndjson(inp, [{"id": md.id, "m": md.m, "roots": list(md.impl.values())} for md in models.values()])
-            args = ["wg-replay", "-in", inp, "-out", out, "-seed", str(SEED), "-natural", "20" if tier == "quick" else "50", "-maxperm", "720" if nfree == 2 else "240"]
+            args = ["wg-replay", "-in", inp, "-out", out, "-seed", str(SEED), "-natural", "20" if tier == "quick" else "50", "-maxperm", "720" if nfree == 2 else "240" if nfree >= 0 else "120"]
             if pid == "C06":
                 args += ["-perm", "-conc", "8"]
             run_harness(binary, args)
